@@ -1,4 +1,5 @@
 import Ivg.Lemmas.GeomQ
+import Ivg.Lemmas.RenderHistQ
 import Ivg.Gen.Tie.GradientFields
 import Ivg.Gen.Tie.RendererFields
 import Ivg.Gen.Tie.MiscFields
@@ -162,6 +163,148 @@ theorem closeEnd_generic (arc : ArcFn α β) (posInf : α) (z : Renderer α β) 
   GeomQ.closeEnd_generic arc posInf z hen
 end generic
 
+
+/-! ## histories of a reused Renderer: `SetRasterizer` between graphics and between paths
+
+`RenOp α` is a Destination call or `SetRasterizer(_, r)` (`Ivg/Lemmas/RenderHist.lean`); `z.runOps` runs a
+history.  The theorems above are about ONE `SetRasterizer` followed by ONE `Reset`; these are about every
+state a history reaches, from ANY initial state. -/
+section histories
+open Ivg.RenderHist Ivg.RenderHistQ Ivg.Lemmas.RendererVM
+variable {α β : Type} [Arith α] [Arith β] [Wide α β]
+
+/-- Clause "the affine map that takes the viewBox onto the target rectangle", as an invariant of the
+    Renderer's life, for every number type: `TransformOK z` says the four transform fields are
+    `recalcTransform` of the CURRENT rectangle and viewBox.  It holds after `SetRasterizer` and after `Reset`
+    whatever the state was, every other call preserves it — so it holds in every state reached by a history
+    that contains at least one `SetRasterizer` or `Reset`, from any initial state. -/
+theorem transform_invariant (arc : ArcFn α β) (posInf : α) (z0 : Renderer α β) (h : List (RenOp α))
+    (hs : h.any settles = true) : TransformOK (z0.runOps arc posInf h).1 :=
+  transformOK_of_settled arc posInf h z0 hs
+example : [RenOp.call (.setCSel 1 : Call Num.F32), .rast ⟨0, 0, 8, 8⟩, .call .closeEnd].any settles = true := rfl
+/-- the zero value itself does not satisfy it at float32 (`0/0` is NaN, `-0 ≠ +0`) — one `SetRasterizer` or
+    `Reset` is needed — although it does at exact arithmetic -/
+example : ¬ TransformOK (Renderer.zero : Renderer Num.F32 Num.F64) := RenderHist.Ex.zero_not_transformOK
+example : TransformOK (Renderer.zero : Renderer ℚ ℚ) := RenderHistQ.Ex.zero_transformOK
+
+/-- … its three ingredients: established by `SetRasterizer`, established by `Reset`, preserved by every
+    Destination call (any arc implementation). -/
+theorem transform_invariant_steps (arc : ArcFn α β) (posInf : α) (z : Renderer α β) :
+    (∀ r, TransformOK (z.setRasterizer r)) ∧ (∀ vb pal, TransformOK (z.reset posInf vb pal)) ∧
+    (∀ c, TransformOK z → TransformOK (z.step arc posInf c).1) :=
+  ⟨transformOK_setRasterizer z, transformOK_reset z posInf, fun c hz => transformOK_step arc posInf z c hz⟩
+
+/-- … explicitly: in such a state the rectangle is the (normalised) one of the LAST `SetRasterizer`
+    (`rectAfter`), the viewBox the one of the LAST `Reset` (`viewBoxAfter`), and scale and bias are those of
+    exactly these two. -/
+theorem transform_of_history (arc : ArcFn α β) (posInf : α) (z0 : Renderer α β) (h : List (RenOp α))
+    (hs : h.any settles = true) :
+    let z := (z0.runOps arc posInf h).1
+    let R := rectAfter z0.r h
+    let vb := viewBoxAfter z0.viewBox h
+    z.r = R ∧ z.viewBox = vb ∧
+    z.scaleX = Arith.ofInt R.dx / (vb.maxX - vb.minX) ∧ z.biasX = -vb.minX ∧
+    z.scaleY = Arith.ofInt R.dy / (vb.maxY - vb.minY) ∧ z.biasY = -vb.minY :=
+  RenderHist.transform_of_history arc posInf z0 h hs
+
+/-- `setRasterizer_transform`: after ANY history `h`, `SetRasterizer r` and any calls other than `Reset`
+    (styling, whole paths), the map used for the geometry that follows is the one of `r` and of the viewBox
+    of the last `Reset` — e.g. the same icon re-rendered at a new size is not drawn with the old scale. -/
+theorem setRasterizer_transform (arc : ArcFn α β) (posInf : α) (z0 : Renderer α β) (h : List (RenOp α))
+    (r : Rect) (cs : List (Call α)) (hcs : ∀ c ∈ cs, isReset c = false) :
+    let z := (z0.runOps arc posInf (h ++ .rast r :: cs.map .call)).1
+    let vb := viewBoxAfter z0.viewBox h
+    z.r = Rect.norm r ∧ z.viewBox = vb ∧
+    z.scaleX = Arith.ofInt (Rect.norm r).dx / (vb.maxX - vb.minX) ∧ z.biasX = -vb.minX ∧
+    z.scaleY = Arith.ofInt (Rect.norm r).dy / (vb.maxY - vb.minY) ∧ z.biasY = -vb.minY :=
+  RenderHist.setRasterizer_transform arc posInf z0 h r cs hcs
+example : ∀ c ∈ RenderHistQ.Ex.load, isReset c = false := RenderHistQ.Ex.load_noReset
+
+/-- … and after `Reset vb` following any history: the map of `vb` and of the rectangle of the last
+    `SetRasterizer`, also when `vb` is the viewBox the Renderer already had. -/
+theorem reset_transform (arc : ArcFn α β) (posInf : α) (z0 : Renderer α β) (h : List (RenOp α))
+    (vb : ViewBox α) (pal : Palette) (cs : List (Call α)) (hcs : ∀ c ∈ cs, isReset c = false) :
+    let z := (z0.runOps arc posInf (h ++ .call (.reset vb pal) :: cs.map .call)).1
+    let R := rectAfter z0.r h
+    z.r = R ∧ z.viewBox = vb ∧
+    z.scaleX = Arith.ofInt R.dx / (vb.maxX - vb.minX) ∧ z.biasX = -vb.minX ∧
+    z.scaleY = Arith.ofInt R.dy / (vb.maxY - vb.minY) ∧ z.biasY = -vb.minY :=
+  RenderHist.reset_transform arc posInf z0 h vb pal cs hcs
+
+/-- Clause "drawn exactly once, over the target rectangle", over histories (`draw_uses_current_rect`), for
+    every number type and every arc implementation that only adds segments: after ANY history and
+    `SetRasterizer r`, whatever calls follow until the next `SetRasterizer`, every `Draw` is over `r`
+    (normalised as `SetRasterizer` does) and every `Reset` of the rasteriser has the size of `r`
+    (`OverRect`) — never a rectangle used earlier, also when the new one has the same size. -/
+theorem draw_uses_current_rect (arc : ArcFn α β) (hArc : ArcPure arc) (posInf : α) (z0 : Renderer α β)
+    (h : List (RenOp α)) (r : Rect) (cs : List (Call α)) :
+    (z0.runOps arc posInf (h ++ .rast r :: cs.map .call)).2 =
+      (z0.runOps arc posInf h).2 ++ (((z0.runOps arc posInf h).1.setRasterizer r).run arc posInf cs).2 ∧
+    ∀ op ∈ (((z0.runOps arc posInf h).1.setRasterizer r).run arc posInf cs).2, OverRect (Rect.norm r) op :=
+  RenderHist.draw_uses_current_rect arc hArc posInf z0 h r cs
+example : ArcPure arcF32 := arcF32_pure
+
+/-- … for one path `StartPath … ClosePathEndPath` started after `SetRasterizer r` (any history before, any
+    calls in between): no rasteriser call at all, or `Reset` to the size of `r`, `MoveTo`, segments,
+    `ClosePath` and ONE `Draw` over `r`. -/
+theorem path_after_rast (arc : ArcFn α β) (hArc : ArcPure arc) (posInf : α) (z0 : Renderer α β)
+    (h : List (RenOp α)) (r : Rect) (cs : List (Call α))
+    (adj : UInt8) (x y : α) (segs : List (Call α)) (hs : ∀ s ∈ segs, isSegment s = true) :
+    let z := (z0.runOps arc posInf (h ++ .rast r :: cs.map .call)).1
+    let out := (z.run arc posInf (.startPath adj x y :: (segs ++ [.closeEnd]))).2
+    z.r = Rect.norm r ∧
+    (((Ivg.Lemmas.RendererVM.absVM z).paintChoice (Rect.norm r).dy adj = none ∧ out = []) ∨
+     ∃ p mid, (Ivg.Lemmas.RendererVM.absVM z).paintChoice (Rect.norm r).dy adj = some p ∧
+      (∀ op ∈ mid, isPathOp op = true) ∧
+      out = .reset (Rect.norm r).dx (Rect.norm r).dy :: .moveTo (z.absX x) (z.absY y) ::
+        (mid ++ [.closePath, .draw (Rect.norm r) (realise z p)])) :=
+  RenderHist.path_after_rast arc hArc posInf z0 h r cs adj x y segs hs
+set_option maxRecDepth 100000 in
+/-- the model run on a concrete life (24×24 outside the LOD range; 48×48 set between two paths; the same
+    size at another origin; the same icon again at 24×24): `Draw`s over the current rectangles, rasteriser
+    `Reset` to their sizes, start point mapped with the current scale (x = 24, 24, 12) -/
+example :
+    let out := ((Renderer.zero : Renderer Num.F32 Num.F64).runOps arcF32 Ex.posInf RenderHist.Ex.hist).2
+    (drawsOf out).map (·.1) = [⟨0, 0, 48, 48⟩, ⟨100, 100, 148, 148⟩, ⟨0, 0, 24, 24⟩] ∧
+    RenderHist.Ex.resetSizes out = [(48, 48), (48, 48), (24, 24)] ∧
+    RenderHist.Ex.moveXs out = [Ex.n 24, Ex.n 24, Ex.n 12] := RenderHist.Ex.hist_run
+
+/-- At exact arithmetic: after ANY history `h`, `SetRasterizer r` and calls other than `Reset`, the
+    renderer's map `T` is `Tof (norm r) vb : (x, y) ↦ (dx·(x − minX)/(maxX − minX), dy·(y − minY)/(maxY − minY))`
+    for the size of `r` and the viewBox `vb` of the last `Reset` in `h`. -/
+theorem T_after_rast [SqrtQ] (arc : ArcFn ℚ ℚ) (posInf : ℚ) (z0 : Renderer ℚ ℚ) (h : List (RenOp ℚ)) (r : Rect)
+    (cs : List (Call ℚ)) (hcs : ∀ c ∈ cs, isReset c = false) :
+    T (z0.runOps arc posInf (h ++ .rast r :: cs.map .call)).1 = Tof (Rect.norm r) (viewBoxAfter z0.viewBox h) :=
+  RenderHistQ.T_after_rast arc posInf z0 h r cs hcs
+
+/-- … and after `Reset vb` following any history. -/
+theorem T_after_reset_hist [SqrtQ] (arc : ArcFn ℚ ℚ) (posInf : ℚ) (z0 : Renderer ℚ ℚ) (h : List (RenOp ℚ))
+    (vb : ViewBox ℚ) (pal : Palette) (cs : List (Call ℚ)) (hcs : ∀ c ∈ cs, isReset c = false) :
+    T (z0.runOps arc posInf (h ++ .call (.reset vb pal) :: cs.map .call)).1 = Tof (rectAfter z0.r h) vb :=
+  RenderHistQ.T_after_reset_hist arc posInf z0 h vb pal cs hcs
+
+/-- **Headline over histories** (whole property at exact arithmetic, arcs excepted): an enabled arc-free
+    path that starts after ANY history `h`, `SetRasterizer r` and calls `cs` other than `Reset` adds to the
+    rasteriser traffic exactly: `Reset` to the size of `r`; the specification's segments mapped by the affine
+    map of `r` and of the viewBox of the last `Reset`; one `Draw` over `r` with the paint `StartPath` chose. -/
+theorem geometry_after_rast [SqrtQ] (arc : ArcFn ℚ ℚ) (posInf : ℚ) (z0 : Renderer ℚ ℚ) (h : List (RenOp ℚ))
+    (r : Rect) (cs : List (Call ℚ)) (hcs : ∀ c ∈ cs, isReset c = false) (adj : UInt8) (x y : ℚ)
+    (body : List (Call ℚ)) (hbody : ∀ c ∈ body, Spec.Path.isSeg c = true)
+    (hen : ((z0.runOps arc posInf (h ++ .rast r :: cs.map .call)).1.startPath adj x y).1.disabled = false) :
+    (z0.runOps arc posInf (h ++ .rast r :: (cs ++ (Call.startPath adj x y :: body ++ [Call.closeEnd])).map .call)).2 =
+      (z0.runOps arc posInf (h ++ .rast r :: cs.map .call)).2 ++
+      (.reset (Rect.norm r).dx (Rect.norm r).dy ::
+        ((Spec.Path.pathSegs x y body).map (Seg.map (Tof (Rect.norm r) (viewBoxAfter z0.viewBox h)))).map toOp ++
+        [.draw (Rect.norm r) ((z0.runOps arc posInf (h ++ .rast r :: cs.map .call)).1.startPath adj x y).1.fill]) :=
+  RenderHistQ.geometry_after_rast arc posInf z0 h r cs hcs adj x y body hbody hen
+-- non-vacuity: an icon drawn at 64×64, then (same Renderer) `SetRasterizer` to 128×32 at (5,7), register
+-- loads, and a path that is enabled
+example : (((Renderer.zero (α := ℚ) (β := ℚ)).runOps RenderHistQ.Ex.noArc 100
+    (RenderHistQ.Ex.hist ++ .rast ⟨5, 7, 133, 39⟩ :: RenderHistQ.Ex.load.map .call)).1.startPath 0 0 0).1.disabled = false :=
+  RenderHistQ.Ex.gradient_path_enabled.1
+
+end histories
+
 /-!
 ## Not proved in this file
 
@@ -172,6 +315,11 @@ end generic
   structural theorems (`step_kinds`, `step_disabled`, `closeMove_generic`, `closeEnd_generic`) are proved there.
 * That the calls reach the renderer in this order from an encoded icon (decoder) is C04/C06; which paint
   `StartPath` selects and when it disables the renderer is C13/C14.
+* Histories: `SetRasterizer` is modelled as handing over a FRESH rasteriser (pen at the origin) — what the
+  rasteriser's own state is when the caller passes a used one is outside /repo.  `geometry_after_rast` is for
+  a path that starts after the `SetRasterizer`; a `SetRasterizer` in the middle of a path (allowed by the Go
+  API, meaningless) is covered only by the structural theorems (`transform_invariant`,
+  `draw_uses_current_rect`), not by a geometric specification.
 -/
 
 end Ivg.Props.C05
@@ -189,6 +337,16 @@ end Ivg.Props.C05
   Ivg.Props.C05.step_disabled,
   Ivg.Props.C05.closeMove_generic,
   Ivg.Props.C05.closeEnd_generic,
+  Ivg.Props.C05.transform_invariant,
+  Ivg.Props.C05.transform_invariant_steps,
+  Ivg.Props.C05.transform_of_history,
+  Ivg.Props.C05.setRasterizer_transform,
+  Ivg.Props.C05.reset_transform,
+  Ivg.Props.C05.draw_uses_current_rect,
+  Ivg.Props.C05.path_after_rast,
+  Ivg.Props.C05.T_after_rast,
+  Ivg.Props.C05.T_after_reset_hist,
+  Ivg.Props.C05.geometry_after_rast,
   Ivg.Gen.Tie.renderer_fields_tie,
   Ivg.Gen.Tie.gradient_fields_tie,
   Ivg.Gen.Tie.viewBox_fields_tie]
